@@ -427,8 +427,12 @@ func SetTag(tag string) {
 // Go starts fn as a new task.
 func Go(site string, fn func()) {
 	s := cur.Load()
-	if s == nil || s.dead.Load() {
+	if s == nil {
 		go fn()
+		return
+	}
+	if s.dead.Load() {
+		go quiet(fn)
 		return
 	}
 	parent := s.self("")
@@ -436,7 +440,8 @@ func Go(site string, fn func()) {
 	td := s.teardown
 	s.mu.Unlock()
 	if td {
-		go fn()
+		// the run is over: whatever leftover code does now is not an observation
+		go quiet(fn)
 		return
 	}
 	var child *Task
@@ -456,6 +461,11 @@ func Go(site string, fn func()) {
 		s.parkEligible(child, "start:"+site)
 		fn()
 	}()
+}
+
+func quiet(fn func()) {
+	defer func() { recover() }()
+	fn()
 }
 
 // WrapErrFunc prepares f to run as a task on a goroutine that a library (errgroup) starts.
